@@ -202,12 +202,24 @@ theorem steps_recvAll_bad (s : Sock) (hudp : s.tcp = false) (m : Bytes) (hm : ma
   simp only [Option.getD_none, this] at hr
   exact Steps.bind_err hr w hw
 
-/-! ### one attempt (`get_server_packets_impl`) -/
+/-! ### one attempt (`get_server_packets_impl`): handshake, data request, then the receiving `tail` -/
+
+/-- handshake, data request, then `tail`: the receive loop, or the one receive of single-packet mode -/
+def attemptOf (s : Sock) (payload : Bytes) (tail : Q (List Bytes)) : Q (List Bytes) :=
+  makeInitialHandshake s >>= fun ch => sendDataRequest s payload ch >>= fun _ => tail
+
+/-- single-packet mode: one receive, the split header skipped -/
+def recvOne (s : Sock) : Q (List Bytes) :=
+  receive s none 0 >>= fun data => parse readSingle data >>= fun rest => pure [rest]
 
 theorem impl_eq (s : Sock) (payload : Bytes) :
-    getServerPacketsImpl s payload false
-      = (makeInitialHandshake s >>= fun ch => sendDataRequest s payload ch >>= fun _ => recvAll s) := by
-  unfold getServerPacketsImpl
+    getServerPacketsImpl s payload false = attemptOf s payload (recvAll s) := by
+  unfold getServerPacketsImpl attemptOf
+  simp
+
+theorem impl_eq_single (s : Sock) (payload : Bytes) :
+    getServerPacketsImpl s payload true = attemptOf s payload (recvOne s) := by
+  unfold getServerPacketsImpl attemptOf recvOne
   simp
 
 theorem hsRequest_eq : hsRequest = handshakeRequest := by decide
@@ -215,151 +227,185 @@ theorem hsRequest_eq : hsRequest = handshakeRequest := by decide
 theorem dataRequest_eq (c : Int) : requestBytes 0 (challengeOf c) (some DEFAULT_PAYLOAD) = dataRequest c :=
   (exchange_spec.C09_request_bytes c).2
 
+/-- what the receiving stage does on a silence and on a datagram of the wrong kind -/
+structure TailOk (s : Sock) (tail : Q (List Bytes)) : Prop where
+  silent : ∀ q fs sn, Steps s tail (.err .packetReceive) ⟨.silence :: q, fs, sn⟩ ⟨q, fs, sn⟩
+  bad : ∀ m, malformedAt .data m = true → ∀ q fs sn,
+    Steps s tail (.err (malformedError m)) ⟨.data m :: q, fs, sn⟩ ⟨q, fs, sn⟩
+
+theorem tailOk_recvAll (s : Sock) (hudp : s.tcp = false) : TailOk s (recvAll s) :=
+  ⟨steps_recvAll_silent s, fun m hm q fs sn => steps_recvAll_bad s hudp m hm q fs sn⟩
+
+theorem tailOk_recvOne (s : Sock) (hudp : s.tcp = false) : TailOk s (recvOne s) := by
+  refine ⟨fun q fs sn => ?_, fun m hm q fs sn => ?_⟩
+  · unfold recvOne
+    exact Steps.bind_err (steps_receive_silence s none 0 q fs sn)
+  · unfold recvOne
+    have hr := steps_receive s hudp none 0 m q fs sn
+    have := readHeader_malformed .data m PACKET_SIZE (by decide) hm
+    simp only [Stage.kind, show (0 : UInt8).toNat = 0 from rfl] at this
+    simp only [Option.getD_none, this] at hr
+    exact Steps.bind_err hr
+
+theorem steps_dataRequest (s : Sock) (payload : Bytes) (c : Int) (dreq : Bytes)
+    (hd : requestBytes 0 (challengeOf c) (some payload) = dreq) (f : Bool) (q : List Delivery) (fs : List Bool)
+    (sn : List (Bytes × Bool)) :
+    Steps s (sendDataRequest s payload (challengeOf c)) (if f then .err .packetSend else .ok ())
+      ⟨q, f :: fs, sn⟩ ⟨q, fs, sn ++ [(dreq, f)]⟩ := by
+  unfold sendDataRequest
+  rw [hd]
+  cases f with
+  | false => exact steps_send_ok s _ _ fs _
+  | true => exact steps_send_fault s _ _ fs _
+
 /-- a failed attempt of the plan: the attempt's timeout-class error, exactly its deliveries and flags consumed, exactly
 its requests sent -/
-theorem steps_attempt (s : Sock) (hudp : s.tcp = false) (cfg : Config) (hlo : -(2 ^ 31 : Int) ≤ cfg.challenge)
-    (hhi : cfg.challenge < 2 ^ 31) (a : Attempt) (q : List Delivery) (fs : List Bool) (sn : List (Bytes × Bool)) :
-    Steps s (getServerPacketsImpl s DEFAULT_PAYLOAD false) (.err a.error)
-      ⟨a.deliveries cfg ++ q, a.faults ++ fs, sn⟩ ⟨q, fs, sn ++ a.sends cfg⟩ := by
-  rw [impl_eq]
+theorem steps_attemptOf (s : Sock) (hudp : s.tcp = false) (payload : Bytes) (tail : Q (List Bytes))
+    (ht : TailOk s tail) (c : Int) (hlo : -(2 ^ 31 : Int) ≤ c) (hhi : c < 2 ^ 31) (dreq : Bytes)
+    (hd : requestBytes 0 (challengeOf c) (some payload) = dreq) (a : Attempt) (q : List Delivery) (fs : List Bool)
+    (sn : List (Bytes × Bool)) :
+    Steps s (attemptOf s payload tail) (.err a.error)
+      ⟨a.deliveriesAt c ++ q, a.faults ++ fs, sn⟩ ⟨q, fs, sn ++ a.sendsWith dreq⟩ := by
+  unfold attemptOf
   obtain ⟨stage, sf⟩ := a
   cases stage with
   | handshake =>
     cases sf with
     | false =>
-      simpa [Attempt.deliveries, Attempt.faults, Attempt.sends, Attempt.error, attemptError, hsRequest_eq]
-        using Steps.bind_err (g := fun ch => sendDataRequest s DEFAULT_PAYLOAD ch >>= fun _ => recvAll s)
+      simpa [Attempt.deliveriesAt, Attempt.faults, Attempt.sendsWith, Attempt.error, attemptError, hsRequest_eq]
+        using Steps.bind_err (g := fun ch => sendDataRequest s payload ch >>= fun _ => tail)
           (steps_handshake_silent s q fs sn)
     | true =>
-      simpa [Attempt.deliveries, Attempt.faults, Attempt.sends, Attempt.error, attemptError, hsRequest_eq]
-        using Steps.bind_err (g := fun ch => sendDataRequest s DEFAULT_PAYLOAD ch >>= fun _ => recvAll s)
+      simpa [Attempt.deliveriesAt, Attempt.faults, Attempt.sendsWith, Attempt.error, attemptError, hsRequest_eq]
+        using Steps.bind_err (g := fun ch => sendDataRequest s payload ch >>= fun _ => tail)
           (steps_handshake_fault s q fs sn)
   | data =>
     cases sf with
     | false =>
-      have h1 := steps_handshake_ok s hudp cfg.challenge hlo hhi (.silence :: q) (false :: fs) sn
-      have h2 : Steps s (sendDataRequest s DEFAULT_PAYLOAD (challengeOf cfg.challenge)) (.ok ())
-          ⟨.silence :: q, false :: fs, sn ++ [(hsRequest, false)]⟩
-          ⟨.silence :: q, fs, sn ++ [(hsRequest, false)] ++ [(dataRequest cfg.challenge, false)]⟩ := by
-        unfold sendDataRequest
-        rw [dataRequest_eq]
-        exact steps_send_ok s _ _ fs _
-      have h3 := steps_recvAll_silent s q fs (sn ++ [(hsRequest, false)] ++ [(dataRequest cfg.challenge, false)])
-      have hS := Steps.bind (g := fun ch => sendDataRequest s DEFAULT_PAYLOAD ch >>= fun _ => recvAll s) h1
-        (Steps.bind (g := fun _ => recvAll s) h2 h3)
-      simpa [Attempt.deliveries, Attempt.faults, Attempt.sends, Attempt.error, attemptError, hsRequest_eq,
+      have h1 := steps_handshake_ok s hudp c hlo hhi (.silence :: q) (false :: fs) sn
+      have h2 := steps_dataRequest s payload c dreq hd false (.silence :: q) fs (sn ++ [(hsRequest, false)])
+      have h3 := ht.silent q fs (sn ++ [(hsRequest, false)] ++ [(dreq, false)])
+      have hS := Steps.bind (g := fun ch => sendDataRequest s payload ch >>= fun _ => tail) h1
+        (Steps.bind (g := fun _ => tail) h2 h3)
+      simpa [Attempt.deliveriesAt, Attempt.faults, Attempt.sendsWith, Attempt.error, attemptError, hsRequest_eq,
         List.append_assoc] using hS
     | true =>
-      have h1 := steps_handshake_ok s hudp cfg.challenge hlo hhi q (true :: fs) sn
-      have h2 : Steps s (sendDataRequest s DEFAULT_PAYLOAD (challengeOf cfg.challenge)) (.err .packetSend)
-          ⟨q, true :: fs, sn ++ [(hsRequest, false)]⟩
-          ⟨q, fs, sn ++ [(hsRequest, false)] ++ [(dataRequest cfg.challenge, true)]⟩ := by
-        unfold sendDataRequest
-        rw [dataRequest_eq]
-        exact steps_send_fault s _ _ fs _
-      have hS := Steps.bind (g := fun ch => sendDataRequest s DEFAULT_PAYLOAD ch >>= fun _ => recvAll s) h1
-        (Steps.bind_err (g := fun _ => recvAll s) h2)
-      simpa [Attempt.deliveries, Attempt.faults, Attempt.sends, Attempt.error, attemptError, hsRequest_eq,
+      have h1 := steps_handshake_ok s hudp c hlo hhi q (true :: fs) sn
+      have h2 := steps_dataRequest s payload c dreq hd true q fs (sn ++ [(hsRequest, false)])
+      have hS := Steps.bind (g := fun ch => sendDataRequest s payload ch >>= fun _ => tail) h1
+        (Steps.bind_err (g := fun _ => tail) h2)
+      simpa [Attempt.deliveriesAt, Attempt.faults, Attempt.sendsWith, Attempt.error, attemptError, hsRequest_eq,
         List.append_assoc] using hS
 
 theorem Attempt.error_timeout (a : Attempt) : a.error.isTimeout = true := by
   unfold Attempt.error attemptError
   split <;> rfl
 
-/-- what is left queued after the valid exchange: the packets the loop did not need to read (none, for the SPEC's
-packets), and whatever follows -/
-def afterValid (arrival : List Bytes) (q : List Delivery) : List Delivery :=
-  (arrival.drop (consumed Acc.init (arrival.map decodeFrag))).map .data ++ q
-
-/-- the attempt the server answers: handshake reply, then the data packets in any order of arrival -/
-theorem steps_validAttempt (s : Sock) (hudp : s.tcp = false) (cfg : Config) (st : State) (h : wf cfg st = true)
-    (arrival : List Bytes) (harr : arrival.Perm (dataPackets cfg st)) (q : List Delivery) (fs : List Bool)
-    (sn : List (Bytes × Bool)) :
-    Steps s (getServerPacketsImpl s DEFAULT_PAYLOAD false) (.ok (payloads cfg st))
-      ⟨Ending.valid.deliveries cfg arrival ++ q, Ending.valid.faults ++ fs, sn⟩
-      ⟨afterValid arrival q, fs, sn ++ Ending.valid.sends cfg⟩ := by
-  obtain ⟨hcount, hpay, hsize, hlo, hhi⟩ := wf_wire cfg st h
-  rw [impl_eq]
-  have h1 := steps_handshake_ok s hudp cfg.challenge hlo hhi (arrival.map .data ++ q) (false :: fs) sn
-  have h2 : Steps s (sendDataRequest s DEFAULT_PAYLOAD (challengeOf cfg.challenge)) (.ok ())
-      ⟨arrival.map .data ++ q, false :: fs, sn ++ [(hsRequest, false)]⟩
-      ⟨arrival.map .data ++ q, fs, sn ++ [(hsRequest, false)] ++ [(dataRequest cfg.challenge, false)]⟩ := by
-    unfold sendDataRequest
-    rw [dataRequest_eq]
-    exact steps_send_ok s _ _ fs _
-  have h3 := steps_recvAll_ok s hudp q fs (sn ++ [(hsRequest, false)] ++ [(dataRequest cfg.challenge, false)]) arrival
-    (payloads cfg st) (fun d hd => hsize d (harr.subset hd)) (feed_arrival cfg st hcount hpay hsize arrival harr)
-  have hS := Steps.bind (g := fun ch => sendDataRequest s DEFAULT_PAYLOAD ch >>= fun _ => recvAll s) h1
-    (Steps.bind (g := fun _ => recvAll s) h2 h3)
-  simpa [Ending.deliveries, Ending.faults, Ending.sends, afterValid, hsRequest_eq, List.append_assoc] using hS
+/-- the attempt the server answers: handshake reply, then the data packets, on which the receiving stage yields `good`
+and leaves `q'` queued -/
+theorem steps_validOf (s : Sock) (hudp : s.tcp = false) (payload : Bytes) (tail : Q (List Bytes))
+    (c : Int) (hlo : -(2 ^ 31 : Int) ≤ c) (hhi : c < 2 ^ 31) (dreq : Bytes)
+    (hd : requestBytes 0 (challengeOf c) (some payload) = dreq) (packets good : List Bytes) (q q' : List Delivery)
+    (hvalid : ∀ fs sn, Steps s tail (.ok good) ⟨packets.map .data ++ q, fs, sn⟩ ⟨q', fs, sn⟩)
+    (fs : List Bool) (sn : List (Bytes × Bool)) :
+    Steps s (attemptOf s payload tail) (.ok good)
+      ⟨Ending.valid.deliveriesAt c packets ++ q, Ending.valid.faults ++ fs, sn⟩
+      ⟨q', fs, sn ++ Ending.valid.sendsWith dreq⟩ := by
+  unfold attemptOf
+  have h1 := steps_handshake_ok s hudp c hlo hhi (packets.map .data ++ q) (false :: fs) sn
+  have h2 := steps_dataRequest s payload c dreq hd false (packets.map .data ++ q) fs (sn ++ [(hsRequest, false)])
+  have h3 := hvalid fs (sn ++ [(hsRequest, false)] ++ [(dreq, false)])
+  have hS := Steps.bind (g := fun ch => sendDataRequest s payload ch >>= fun _ => tail) h1
+    (Steps.bind (g := fun _ => tail) h2 h3)
+  simpa [Ending.deliveriesAt, Ending.faults, Ending.sendsWith, hsRequest_eq, List.append_assoc] using hS
 
 /-- the attempt that receives a datagram of the wrong kind at one of the two stages -/
-theorem steps_malformedAttempt (s : Sock) (hudp : s.tcp = false) (cfg : Config) (hlo : -(2 ^ 31 : Int) ≤ cfg.challenge)
-    (hhi : cfg.challenge < 2 ^ 31) (stage : Stage) (m : Bytes) (hm : malformedAt stage m = true) (arrival : List Bytes)
-    (q : List Delivery) (fs : List Bool) (sn : List (Bytes × Bool)) :
-    Steps s (getServerPacketsImpl s DEFAULT_PAYLOAD false) (.err (malformedError m))
-      ⟨(Ending.malformed stage m).deliveries cfg arrival ++ q, (Ending.malformed stage m).faults ++ fs, sn⟩
-      ⟨q, fs, sn ++ (Ending.malformed stage m).sends cfg⟩ := by
-  rw [impl_eq]
+theorem steps_malformedOf (s : Sock) (hudp : s.tcp = false) (payload : Bytes) (tail : Q (List Bytes))
+    (ht : TailOk s tail) (c : Int) (hlo : -(2 ^ 31 : Int) ≤ c) (hhi : c < 2 ^ 31) (dreq : Bytes)
+    (hd : requestBytes 0 (challengeOf c) (some payload) = dreq) (stage : Stage) (m : Bytes)
+    (hm : malformedAt stage m = true) (packets : List Bytes) (q : List Delivery) (fs : List Bool)
+    (sn : List (Bytes × Bool)) :
+    Steps s (attemptOf s payload tail) (.err (malformedError m))
+      ⟨(Ending.malformed stage m).deliveriesAt c packets ++ q, (Ending.malformed stage m).faults ++ fs, sn⟩
+      ⟨q, fs, sn ++ (Ending.malformed stage m).sendsWith dreq⟩ := by
+  unfold attemptOf
   cases stage with
   | handshake =>
-    have hS := Steps.bind_err (g := fun ch => sendDataRequest s DEFAULT_PAYLOAD ch >>= fun _ => recvAll s)
+    have hS := Steps.bind_err (g := fun ch => sendDataRequest s payload ch >>= fun _ => tail)
       (steps_handshake_bad s hudp m hm q fs sn)
-    simpa [Ending.deliveries, Ending.faults, Ending.sends, hsRequest_eq] using hS
+    simpa [Ending.deliveriesAt, Ending.faults, Ending.sendsWith, hsRequest_eq] using hS
   | data =>
-    have h1 := steps_handshake_ok s hudp cfg.challenge hlo hhi (.data m :: q) (false :: fs) sn
-    have h2 : Steps s (sendDataRequest s DEFAULT_PAYLOAD (challengeOf cfg.challenge)) (.ok ())
-        ⟨.data m :: q, false :: fs, sn ++ [(hsRequest, false)]⟩
-        ⟨.data m :: q, fs, sn ++ [(hsRequest, false)] ++ [(dataRequest cfg.challenge, false)]⟩ := by
-      unfold sendDataRequest
-      rw [dataRequest_eq]
-      exact steps_send_ok s _ _ fs _
-    have h3 := steps_recvAll_bad s hudp m hm q fs (sn ++ [(hsRequest, false)] ++ [(dataRequest cfg.challenge, false)])
-    have hS := Steps.bind (g := fun ch => sendDataRequest s DEFAULT_PAYLOAD ch >>= fun _ => recvAll s) h1
-      (Steps.bind (g := fun _ => recvAll s) h2 h3)
-    simpa [Ending.deliveries, Ending.faults, Ending.sends, hsRequest_eq, List.append_assoc] using hS
+    have h1 := steps_handshake_ok s hudp c hlo hhi (.data m :: q) (false :: fs) sn
+    have h2 := steps_dataRequest s payload c dreq hd false (.data m :: q) fs (sn ++ [(hsRequest, false)])
+    have h3 := ht.bad m hm q fs (sn ++ [(hsRequest, false)] ++ [(dreq, false)])
+    have hS := Steps.bind (g := fun ch => sendDataRequest s payload ch >>= fun _ => tail) h1
+      (Steps.bind (g := fun _ => tail) h2 h3)
+    simpa [Ending.deliveriesAt, Ending.faults, Ending.sendsWith, hsRequest_eq, List.append_assoc] using hS
 
 /-! ### the unit under a plan, the whole exchange -/
 
 /-- what stays queued when the unit has ended -/
-def afterPlan (plan : Plan) (arrival : List Bytes) (q : List Delivery) : List Delivery :=
+def afterOf (plan : Plan) (q' q : List Delivery) : List Delivery :=
   match plan.ending with
-  | .valid => afterValid arrival q
+  | .valid => q'
   | _ => q
 
+theorem steps_unitOf (s : Sock) (hudp : s.tcp = false) (payload : Bytes) (tail : Q (List Bytes))
+    (ht : TailOk s tail) (c : Int) (hlo : -(2 ^ 31 : Int) ≤ c) (hhi : c < 2 ^ 31) (dreq : Bytes)
+    (hd : requestBytes 0 (challengeOf c) (some payload) = dreq) (packets good : List Bytes) (q q' : List Delivery)
+    (hvalid : ∀ fs sn, Steps s tail (.ok good) ⟨packets.map .data ++ q, fs, sn⟩ ⟨q', fs, sn⟩)
+    (retries : Nat) (plan : Plan) (hplan : wfPlan retries plan = true) (fs : List Bool) (sn : List (Bytes × Bool)) :
+    Steps s (retryOnTimeout retries (attemptOf s payload tail)) (packetsOutcome good plan)
+      ⟨scriptAt c plan packets ++ q, faultyFaults plan ++ fs, sn⟩
+      ⟨afterOf plan q' q, fs, sn ++ sendsWith dreq plan⟩ := by
+  have hstep := fun a q fs sn => steps_attemptOf s hudp payload tail ht c hlo hhi dreq hd a q fs sn
+  obtain ⟨fails, ending⟩ := plan
+  cases ending with
+  | valid =>
+    have hlen : fails.length ≤ retries := by simpa [wfPlan] using hplan
+    have hR := Steps.retry_recovers (Attempt.deliveriesAt c) Attempt.faults (Attempt.sendsWith dreq) Attempt.error
+      Attempt.error_timeout hstep (R := .ok good) (fun k hk => by cases hk)
+      (Ending.valid.deliveriesAt c packets ++ q) q' (Ending.valid.faults ++ fs) fs
+      (Ending.valid.sendsWith dreq)
+      (fun sn => steps_validOf s hudp payload tail c hlo hhi dreq hd packets good q q' hvalid fs sn) fails retries sn hlen
+    simpa [scriptAt, faultyFaults, sendsWith, packetsOutcome, afterOf, List.append_assoc] using hR
+  | malformed stage m =>
+    have hlen : fails.length ≤ retries ∧ malformedAt stage m = true := by simpa [wfPlan] using hplan
+    have hR := Steps.retry_recovers (Attempt.deliveriesAt c) Attempt.faults (Attempt.sendsWith dreq) Attempt.error
+      Attempt.error_timeout hstep (R := (.err (malformedError m) : Res (List Bytes)))
+      (fun k hk => by cases hk; exact malformedError_not_timeout m)
+      ((Ending.malformed stage m).deliveriesAt c packets ++ q) q ((Ending.malformed stage m).faults ++ fs) fs
+      ((Ending.malformed stage m).sendsWith dreq)
+      (fun sn => steps_malformedOf s hudp payload tail ht c hlo hhi dreq hd stage m hlen.2 packets q fs sn)
+      fails retries sn hlen.1
+    simpa [scriptAt, faultyFaults, sendsWith, packetsOutcome, afterOf, List.append_assoc] using hR
+  | gaveUp =>
+    have hlen : fails.length = retries + 1 := by simpa [wfPlan] using hplan
+    have hR := Steps.retry_exhausted (Attempt.deliveriesAt c) Attempt.faults (Attempt.sendsWith dreq) Attempt.error
+      Attempt.error_timeout hstep q fs retries fails sn hlen
+    simpa [scriptAt, faultyFaults, sendsWith, packetsOutcome, afterOf, Ending.deliveriesAt, Ending.faults,
+      Ending.sendsWith] using hR
+
+/-- what is left queued after the valid GameSpy 3 exchange: the packets the loop did not need to read (none, for the
+SPEC's packets), and whatever follows -/
+def afterValid (arrival : List Bytes) (q : List Delivery) : List Delivery :=
+  (arrival.drop (consumed Acc.init (arrival.map decodeFrag))).map .data ++ q
+
+/-- `get_server_packets` of GameSpy 3 (multi-packet mode, the default payload) under a plan -/
 theorem steps_unit (s : Sock) (hudp : s.tcp = false) (cfg : Config) (st : State) (h : wf cfg st = true)
     (arrival : List Bytes) (harr : arrival.Perm (dataPackets cfg st)) (retries : Nat) (plan : Plan)
     (hplan : wfPlan retries plan = true) (q : List Delivery) (fs : List Bool) (sn : List (Bytes × Bool)) :
     Steps s (getServerPackets s retries DEFAULT_PAYLOAD false) (faultyPackets cfg st plan)
       ⟨faultyScript cfg plan arrival ++ q, faultyFaults plan ++ fs, sn⟩
-      ⟨afterPlan plan arrival q, fs, sn ++ faultySends cfg plan⟩ := by
-  obtain ⟨_, _, _, hlo, hhi⟩ := wf_wire cfg st h
-  have hstep := fun a q fs sn => steps_attempt s hudp cfg hlo hhi a q fs sn
-  obtain ⟨fails, ending⟩ := plan
+      ⟨afterOf plan (afterValid arrival q) q, fs, sn ++ faultySends cfg plan⟩ := by
+  obtain ⟨hcount, hpay, hsize, hlo, hhi⟩ := wf_wire cfg st h
   unfold getServerPackets
-  cases ending with
-  | valid =>
-    have hlen : fails.length ≤ retries := by simpa [wfPlan] using hplan
-    have hR := Steps.retry_recovers (Attempt.deliveries cfg) Attempt.faults (Attempt.sends cfg) Attempt.error
-      Attempt.error_timeout hstep (R := .ok (payloads cfg st)) (fun k hk => by cases hk)
-      (Ending.valid.deliveries cfg arrival ++ q) (afterValid arrival q) (Ending.valid.faults ++ fs) fs
-      (Ending.valid.sends cfg) (fun sn => steps_validAttempt s hudp cfg st h arrival harr q fs sn) fails retries sn hlen
-    simpa [faultyScript, faultyFaults, faultySends, faultyPackets, afterPlan, List.append_assoc] using hR
-  | malformed stage m =>
-    have hlen : fails.length ≤ retries ∧ malformedAt stage m = true := by simpa [wfPlan] using hplan
-    have hR := Steps.retry_recovers (Attempt.deliveries cfg) Attempt.faults (Attempt.sends cfg) Attempt.error
-      Attempt.error_timeout hstep (R := (.err (malformedError m) : Res (List Bytes)))
-      (fun k hk => by cases hk; exact malformedError_not_timeout m)
-      ((Ending.malformed stage m).deliveries cfg arrival ++ q) q ((Ending.malformed stage m).faults ++ fs) fs
-      ((Ending.malformed stage m).sends cfg)
-      (fun sn => steps_malformedAttempt s hudp cfg hlo hhi stage m hlen.2 arrival q fs sn) fails retries sn hlen.1
-    simpa [faultyScript, faultyFaults, faultySends, faultyPackets, afterPlan, List.append_assoc] using hR
-  | gaveUp =>
-    have hlen : fails.length = retries + 1 := by simpa [wfPlan] using hplan
-    have hR := Steps.retry_exhausted (Attempt.deliveries cfg) Attempt.faults (Attempt.sends cfg) Attempt.error
-      Attempt.error_timeout hstep q fs retries fails sn hlen
-    simpa [faultyScript, faultyFaults, faultySends, faultyPackets, afterPlan, Ending.deliveries, Ending.faults,
-      Ending.sends] using hR
+  rw [impl_eq]
+  exact steps_unitOf s hudp DEFAULT_PAYLOAD (recvAll s) (tailOk_recvAll s hudp) cfg.challenge hlo hhi
+    (dataRequest cfg.challenge) (dataRequest_eq cfg.challenge) arrival (payloads cfg st) q (afterValid arrival q)
+    (fun fs sn => steps_recvAll_ok s hudp q fs sn arrival (payloads cfg st) (fun d hd => hsize d (harr.subset hd))
+      (feed_arrival cfg st hcount hpay hsize arrival harr))
+    retries plan hplan fs sn
 
 /-- The whole exchange (`query`, `query_vars` = this with their post-processing) on the script of a plan followed by
 anything: the post-processing is applied to the outcome C10 prescribes for the packets, and the datagrams sent are the
@@ -390,7 +436,7 @@ theorem exchange_faulty (cfg : Config) (st : State) (h : wf cfg st = true) (port
 
 theorem faultyExpected_eq (cfg : Config) (st : State) (h : wf cfg st = true) (plan : Plan) :
     (faultyPackets cfg st plan >>= buildResponse) = faultyExpected st plan := by
-  unfold faultyPackets faultyExpected
+  unfold faultyPackets packetsOutcome faultyExpected
   cases plan.ending with
   | valid => simpa using buildResponse_spec cfg st h
   | gaveUp => rfl
@@ -402,24 +448,31 @@ theorem dataRequest_ne (c : Int) : (dataRequest c == handshakeRequest) = false :
 theorem attemptsOf_append (a b : List (Bytes × Bool)) : attemptsOf (a ++ b) = attemptsOf a + attemptsOf b := by
   simp [attemptsOf, List.filter_append]
 
-theorem attemptsOf_attempt (cfg : Config) (a : Attempt) : attemptsOf (a.sends cfg) = 1 := by
+theorem attemptsOf_attempt (dreq : Bytes) (hne : (dreq == handshakeRequest) = false) (a : Attempt) :
+    attemptsOf (a.sendsWith dreq) = 1 := by
   obtain ⟨stage, sf⟩ := a
-  cases stage <;> simp [Attempt.sends, attemptsOf, dataRequest_ne]
+  cases stage <;> simp [Attempt.sendsWith, attemptsOf, hne]
 
-theorem attemptsOf_fails (cfg : Config) (fails : List Attempt) :
-    attemptsOf (fails.flatMap (Attempt.sends cfg)) = fails.length := by
+theorem attemptsOf_fails (dreq : Bytes) (hne : (dreq == handshakeRequest) = false) (fails : List Attempt) :
+    attemptsOf (fails.flatMap (Attempt.sendsWith dreq)) = fails.length := by
   induction fails with
   | nil => rfl
-  | cons a r ih => simp only [List.flatMap_cons, attemptsOf_append, attemptsOf_attempt, ih, List.length_cons]; omega
+  | cons a r ih =>
+    simp only [List.flatMap_cons, attemptsOf_append, attemptsOf_attempt dreq hne, ih, List.length_cons]; omega
 
-/-- the attempts seen on the wire (handshake requests) are the plan's -/
-theorem attemptsOf_plan (cfg : Config) (plan : Plan) : attemptsOf (faultySends cfg plan) = plan.attempts := by
+/-- the attempts seen on the wire (handshake requests) are the plan's, whatever the data request is (it is not the
+handshake request) -/
+theorem attemptsOf_sendsWith (dreq : Bytes) (hne : (dreq == handshakeRequest) = false) (plan : Plan) :
+    attemptsOf (sendsWith dreq plan) = plan.attempts := by
   obtain ⟨fails, ending⟩ := plan
-  simp only [faultySends, attemptsOf_append, attemptsOf_fails, Plan.attempts]
+  simp only [sendsWith, attemptsOf_append, attemptsOf_fails dreq hne, Plan.attempts]
   cases ending with
-  | valid => simp [Ending.sends, attemptsOf, dataRequest_ne]
+  | valid => simp [Ending.sendsWith, attemptsOf, hne]
   | gaveUp => rfl
-  | malformed stage m => cases stage <;> simp [Ending.sends, attemptsOf, dataRequest_ne]
+  | malformed stage m => cases stage <;> simp [Ending.sendsWith, attemptsOf, hne]
+
+theorem attemptsOf_plan (cfg : Config) (plan : Plan) : attemptsOf (faultySends cfg plan) = plan.attempts :=
+  attemptsOf_sendsWith _ (dataRequest_ne cfg.challenge) plan
 
 theorem lastError_append (fails : List Attempt) (a : Attempt) :
     lastError Attempt.error (fails ++ [a]) = a.error := by
